@@ -12,6 +12,7 @@ import (
 	"sort"
 	"strconv"
 	"strings"
+	"unicode"
 
 	"github.com/dave/jennifer/jen"
 )
@@ -67,6 +68,20 @@ type pathInfo struct {
 	Guess  string `json:"guess"`
 	Quoted string `json:"quoted"`
 	Real   string `json:"real"`
+	Lower  []int  `json:"lower"` // the path rune by rune after unicode.ToLower (input of JenGuess!Guess)
+}
+
+// lowerCodes: what strings.ToLower sees, as code points (an invalid byte counts as U+FFFD).
+func lowerCodes(path string) []int {
+	out := []int{}
+	for _, r := range path {
+		out = append(out, int(unicode.ToLower(r)))
+	}
+	return out
+}
+
+func infoOf(p string) pathInfo {
+	return pathInfo{Std: probeStd(p), Guess: RefGuess(p), Quoted: strconv.Quote(p), Real: StdName(p), Lower: lowerCodes(p)}
 }
 
 func historyPaths(h []Action) []string {
@@ -171,10 +186,10 @@ func ReplayHistory(tw *TraceWriter, id int, h []Action) {
 	paths := historyPaths(h)
 	info := map[string]pathInfo{}
 	for _, p := range paths {
-		info[p] = pathInfo{Std: probeStd(p), Guess: RefGuess(p), Quoted: strconv.Quote(p), Real: StdName(p)}
+		info[p] = infoOf(p)
 	}
 	if len(info) == 0 {
-		info["fmt"] = pathInfo{Std: "fmt", Guess: "fmt", Quoted: "\"fmt\"", Real: "fmt"}
+		info["fmt"] = infoOf("fmt")
 	}
 	pre := h[0].Preamble
 	if pre == nil {
